@@ -39,12 +39,14 @@ package builder
 //@ props C16
 
 //@ func data/builder.sizedStore
+//@ ensures write-failure-is-recorded: storeFailed <==> (old(storeFailed) || err != nil)
 //@ ensures err == nil ==> result0 != nil && stored(result0)
 //@ ensures monotone: forall l Ref :: old(stored(l)) ==> stored(l)
 //@ inst monotone: l: l
-//@ assigns stored(result0)
+//@ assigns stored(result0), storeFailed
 
 //@ func data/builder.BuildUnixFSSymlink
+//@ ensures any-write-failure-fails-the-build: (err == nil ==> storeFailed == old(storeFailed)) && (old(storeFailed) ==> storeFailed)
 //@ ensures error-implies-nil-link: err != nil ==> result0 == nil
 //@ ensures link-implies-stored: err == nil ==> result0 != nil && stored(result0)
 //@ ensures monotone: forall l Ref :: old(stored(l)) ==> stored(l)
@@ -60,6 +62,7 @@ package builder
 //@ inst children-stored: i: i
 
 //@ func data/builder.fileTreeRecursive
+//@ ensures any-write-failure-fails-the-build: (err == nil ==> storeFailed == old(storeFailed)) && (old(storeFailed) ==> storeFailed)
 //@ requires children-stored: allStored(children)
 //@ ensures error-implies-nil-link: err != nil ==> result0.link == nil
 //@ ensures link-implies-stored: err == nil && result0.link != nil ==> stored(result0.link)
@@ -69,11 +72,13 @@ package builder
 //@ inst children-stored: i: i
 //@ loop 0 invariant monotone-so-far: forall l Ref :: old(stored(l)) ==> stored(l)
 //@ inst monotone-so-far: l: l
+//@ loop 0 invariant no-failure-so-far: storeFailed == old(storeFailed)
 //@ at call data/builder.packFileChildren#1 assert children-stored-before-parent: allStored(children)
 //@ inst children-stored-before-parent: i: i
-//@ assigns stored(result0.link)
+//@ assigns stored(result0.link), storeFailed
 
 //@ func data/builder.BuildUnixFSFile
+//@ ensures any-write-failure-fails-the-build: (err == nil ==> storeFailed == old(storeFailed)) && (old(storeFailed) ==> storeFailed)
 //@ ensures error-implies-nil-link: err != nil ==> result0 == nil
 //@ ensures link-implies-stored: err == nil ==> result0 != nil && stored(result0)
 //@ ensures monotone: forall l Ref :: old(stored(l)) ==> stored(l)
@@ -81,34 +86,41 @@ package builder
 //@ loop 0 invariant monotone-so-far: forall l Ref :: old(stored(l)) ==> stored(l)
 //@ inst monotone-so-far: l: l
 //@ loop 0 invariant prev-stored: allStored(prev) && (prev == nil || len(prev) == 1)
+//@ loop 0 invariant no-failure-so-far: storeFailed == old(storeFailed)
 //@ inst prev-stored: i: i
 
 //@ func (*data/builder.shard).serialize
+//@ ensures any-write-failure-fails-the-build: (err == nil ==> storeFailed == old(storeFailed)) && (old(storeFailed) ==> storeFailed)
 //@ ensures error-implies-nil-link: err != nil ==> result0 == nil
 //@ ensures link-implies-stored: err == nil ==> result0 != nil && stored(result0)
 //@ ensures monotone: forall l Ref :: old(stored(l)) ==> stored(l)
 //@ inst monotone: l: l
 //@ loop 0 invariant monotone-so-far: forall l Ref :: old(stored(l)) ==> stored(l)
 //@ inst monotone-so-far: l: l
+//@ loop 0 invariant no-failure-so-far: storeFailed == old(storeFailed)
 //@ at call data/builder.BuildUnixFSDirectoryEntry#1 assert child-shard-stored-before-parent: stored(callee_hash)
 
 //@ func data/builder.BuildUnixFSShardedDirectory
+//@ ensures any-write-failure-fails-the-build: (err == nil ==> storeFailed == old(storeFailed)) && (old(storeFailed) ==> storeFailed)
 //@ ensures error-implies-nil-link: err != nil ==> result0 == nil
 //@ ensures link-implies-stored: err == nil ==> result0 != nil && stored(result0)
 //@ ensures monotone: forall l Ref :: old(stored(l)) ==> stored(l)
 //@ inst monotone: l: l
 
 //@ func data/builder.BuildUnixFSDirectory
+//@ ensures any-write-failure-fails-the-build: (err == nil ==> storeFailed == old(storeFailed)) && (old(storeFailed) ==> storeFailed)
 //@ ensures error-implies-nil-link: err != nil ==> result0 == nil
 //@ ensures link-implies-stored: err == nil ==> result0 != nil && stored(result0)
 //@ ensures monotone: forall l Ref :: old(stored(l)) ==> stored(l)
 //@ inst monotone: l: l
 
 //@ func data/builder.BuildUnixFSRecursive
+//@ ensures any-write-failure-fails-the-build: (err == nil ==> storeFailed == old(storeFailed)) && (old(storeFailed) ==> storeFailed)
 //@ ensures error-implies-nil-link: err != nil ==> result0 == nil
 //@ ensures link-implies-stored: err == nil ==> result0 != nil && stored(result0)
 //@ ensures monotone: forall l Ref :: old(stored(l)) ==> stored(l)
 //@ inst monotone: l: l
 //@ loop 0 invariant monotone-so-far: forall l Ref :: old(stored(l)) ==> stored(l)
 //@ inst monotone-so-far: l: l
+//@ loop 0 invariant no-failure-so-far: storeFailed == old(storeFailed)
 //@ at call data/builder.BuildUnixFSDirectoryEntry#1 assert entry-stored-before-directory: stored(callee_hash)
